@@ -4,6 +4,6 @@ func init() {
 	plans["C20"] = Plan{Pkg: pkg("C20"), Steps: []Step{
 		{Run: "TestCloneIndependent", Kind: "test"},
 		// 1-4 channel pairs x 3-12 (thorough 3-30) exchanges; ~60 ms per history
-		{Run: "TestImmutable", Quick: 1600, Thorough: 24000, QShards: 16, TShards: 16},
+		{Run: "TestImmutable", Quick: 800, Thorough: 12000, QShards: 16, TShards: 16},
 	}}
 }
